@@ -18,7 +18,7 @@ def instances(tier, rng):
     insts = []
     g = 0
     for cls, u0 in items:
-        for u in (u0, F.perturb(u0, rng)):
+        for u in (u0, F.perturb(u0, rng), F.wild(u0, rng)):
             for k in ((1, 2) if quick else (1, 2, 3)):
                 feats = [{}]
                 extra = [{"mode": "node"}]
